@@ -2,14 +2,17 @@ package worlds
 
 import (
 	"bytes"
+	"crypto/sha256"
 	"fmt"
 	"sort"
 	"time"
 
 	pubsub "github.com/libp2p/go-libp2p-pubsub"
 
+	"verif/sim/ref"
 	"verif/sim/simkit"
 	"verif/sim/simnet"
+	"verif/sim/simtm"
 )
 
 func init() {
@@ -39,8 +42,12 @@ func runC03(r *simkit.Run) {
 	}
 	w := newWorldC(r, n, t, cfg)
 	defer w.close()
+	w.fl = flavour(c.Intn(3, "flavour"))
 	for i := 0; i < n; i++ {
 		w.addNode(fmt.Sprintf("k%d", i), i, dkgSuccess, nil)
+	}
+	if w.fl == flGnosis {
+		w.addAccessNode("access")
 	}
 	// only share messages may be lost (the statement's loss budget)
 	w.net.DropFilter = func(p *simnet.Published, rcv *simnet.Node) bool { return p.Topic == "decryptionKeyShares" }
@@ -55,16 +62,41 @@ func runC03(r *simkit.Run) {
 		}
 	}
 	var ids [][]byte
-	for i := 0; i < nid; i++ {
-		ids = append(ids, []byte(fmt.Sprintf("identity-%d-%d", i, c.Intn(3, "id-variant"))))
+	slot := uint64(100 + c.Intn(5, "slot"))
+	if w.fl == flGnosis {
+		// identities come out of the flavour's own selection from the synced queue
+		var txs []gnosisTx
+		var rq []ref.QueuedTx
+		for i := 0; i < nid-1; i++ {
+			tx := gnosisTx{prefix: bytes.Repeat([]byte{byte(0x10 + c.Intn(3, "tx-prefix"))}, 32), sender: simtm.DetKey(fmt.Sprintf("user-%d", i)).Addr, gas: int64(21000 + 10000*c.Intn(3, "tx-gas"))}
+			txs = append(txs, tx)
+			rq = append(rq, ref.QueuedTx{Identity: tx.identity(), Gas: uint64(tx.gas)})
+		}
+		for _, nd := range w.nodes {
+			w.provisionGnosisQueue(nd, txs, 7, int64(slot)-1)
+		}
+		ids = ref.GnosisSelect(slot, rq, 0, 100_000)
+		nid = len(ids)
+	} else {
+		for i := 0; i < nid; i++ {
+			// 32 bytes: the service flavour signs identities as fixed-size SSZ fields
+			h := sha256.Sum256([]byte(fmt.Sprintf("identity-%d-%d", i, c.Intn(3, "id-variant"))))
+			ids = append(ids, h[:])
+		}
+		sort.Slice(ids, func(i, j int) bool { return bytes.Compare(ids[i], ids[j]) < 0 })
+		// equal identities are legal (non-decreasing): dedupe for the convergence check only
 	}
-	sort.Slice(ids, func(i, j int) bool { return bytes.Compare(ids[i], ids[j]) < 0 })
-	r.Eventf("n=%d t=%d triggered=%d identities=%d cfg=%+v", n, t, m, nid, cfg)
-	r.Sample["config"] = fmt.Sprintf("n=%d t=%d triggered=%d identities=%d dup=%d drop=%d", n, t, m, nid, cfg.DupPermille, cfg.DropPermille)
+	r.Eventf("flavour=%s n=%d t=%d triggered=%d identities=%d cfg=%+v", w.fl, n, t, m, nid, cfg)
+	r.Sample["config"] = fmt.Sprintf("flavour=%s n=%d t=%d triggered=%d identities=%d dup=%d drop=%d", w.fl, n, t, m, nid, cfg.DupPermille, cfg.DropPermille)
+	r.Probe("flavour-" + w.fl.String())
 	w.gate()
 	perm := c.Perm(n, "who-is-triggered")
 	for _, i := range perm[:m] {
-		w.triggerNode(w.nodes[i], 10, ids)
+		if w.fl == flGnosis {
+			w.triggerGnosisSlot(w.nodes[i], slot, 8)
+		} else {
+			w.triggerNode(w.nodes[i], 10, ids)
+		}
 	}
 	done := w.run(20000)
 	if r.Failed() {
@@ -73,8 +105,18 @@ func runC03(r *simkit.Run) {
 	if !done {
 		r.Fail("no-quiescence", "steps", "the system did not become quiescent within the step budget")
 	}
-	// convergence
-	for _, nd := range w.nodes {
+	// convergence: "every keyper that receives their messages". A keyper that is the only
+	// triggered one receives no share message at all (own messages are not handed to the
+	// handlers), so it is outside the statement; everybody else must converge.
+	soleTriggered := -1
+	if m == 1 {
+		soleTriggered = perm[0]
+	}
+	for ni, nd := range w.nodes {
+		if ni == soleTriggered {
+			r.Probe("sole-triggered-exempt")
+			continue
+		}
 		keys := nd.storedKeys()
 		for _, id := range ids {
 			want := w.refKey(id)
@@ -86,6 +128,15 @@ func runC03(r *simkit.Run) {
 				r.Fail("wrong-key", "convergence", "node %s stores a wrong key for identity %q", nd.name, id)
 			}
 		}
+	}
+	nkeys := 0
+	for _, p := range w.net.Log {
+		if p.Topic == "decryptionKeys" && !p.Injected {
+			nkeys++
+		}
+	}
+	if nkeys == 0 && m > 1 {
+		r.Fail("no-keys-message", "convergence", "no keys message was emitted although %d >= t=%d keypers were triggered (flavour %s)", m, t, w.fl)
 	}
 	r.Probe("converged-runs")
 	if r.Faults["net.drop"]+r.Faults["net.dup"] > 0 {
